@@ -75,7 +75,7 @@ class SmoothedLaplace(Distribution):
             x = np.array([x])
         elif isinstance(x, (list, tuple)):
             x = np.array(x)
-        return np.sum(np.log(0.5 / self.scale)) - np.sum(np.sqrt((x - self.location) ** 2 + self.beta) / self.scale)
+        return np.sum(np.log(0.5 / self.scale)*np.ones(self.dim)) - np.sum(np.sqrt((x - self.location) ** 2 + self.beta) / self.scale)
 
     def gradient(self, x):
         """
